@@ -4,7 +4,7 @@ import os
 
 from hypothesis import strategies as st
 
-from vf.api import Kind, check, ok, rejected, trivial, violation
+from vf.api import Expect, Kind, check, ok, rejected, trivial, violation
 from vf.lib import bz
 from vf.lib import c03_fetch as cf
 from vf.lib import graphmodel as gm
@@ -387,6 +387,10 @@ def run(case, env):
             held.unlock()
 
 
+_PRE2A_SIG = ("C03/remote-stacked-source-into-stacked-pre-2a-target-parent-"
+              "inventory-not-copied")
+
+
 def _remote_stacked_source_failure(case, sfmt, tfmt, e):
     """Names two failure classes that need all of: a source that is itself
     stacked, opened through the smart server, and a stacked target (the
@@ -400,6 +404,9 @@ def _remote_stacked_source_failure(case, sfmt, tfmt, e):
             "bytes-like object" in str(e):
         return ("C03/rich-root-upgrade-from-remote-stacked-source-into-"
                 "stacked-target-typeerror")
+    if tfmt != "2a" and name == "ErrorFromSmartServer" and \
+            "BzrCheckError" in str(e) and "Newly created pack file" in str(e):
+        return _PRE2A_SIG
     if sfmt == tfmt == "2a":
         msg = str(e)
         if (name == "BzrCheckError" and (
@@ -460,9 +467,17 @@ def _run_transfers(case, env, d, tpath, spath, sfmt, tfmt, spec, g, want, pre,
                   "C03/%sfallback-repository-modified" % (
                       tag + "-" if tag else ""), None)
             models = hist.models_of(spec)
-            cf.stacking_invariant("C03", tpath,
-                                  hist.graph_of(spec, ghosts=True), models,
-                                  tag=(tag + "-" if tag else "") + "stacked")
+            try:
+                cf.stacking_invariant(
+                    "C03", tpath, hist.graph_of(spec, ghosts=True), models,
+                    tag=(tag + "-" if tag else "") + "stacked")
+            except Expect as e:
+                if e.signature.endswith("parent-inventory-missing") and \
+                        _PRE2A_SIG and case.get("src_stacked") is not None \
+                        and case.get("remote") in ("src", "both") and \
+                        tfmt != "2a":
+                    raise Expect(_PRE2A_SIG, e.detail)
+                raise
     verify("")
 
     # ---- the same transfer again: nothing copied, nothing changed
